@@ -674,7 +674,7 @@ def _raw_mul(a, b):
 
 # names of 's' atoms assumed strictly positive (used only by sqrt / abs / definiteness); every other
 # scalar parameter (velocities, coefficients, scales ...) may have either sign
-POSITIVE = {"L", "dt", "N", "M", "r", "pi", "Nold", "Nnew", "n"}
+POSITIVE = {"L", "dt", "N", "M", "r", "pi", "Nold", "Nnew", "n", "kinj"}
 
 
 def _atom_nonneg(a):
